@@ -12,6 +12,8 @@ import (
 	"fmt"
 	"go/constant"
 	"go/token"
+	"math/big"
+	"regexp"
 	"sort"
 	"strings"
 
@@ -177,9 +179,20 @@ func ruleGFee(c *Ctx) {
 	}
 	// the total may be read back from the two fields or be written out in full (the fields are write-once)
 	full := "(" + want["DataFeePaid"] + " + " + want["StdFeePaid"] + ")"
+	sem := map[string]string{}
 	for f, w := range want {
-		ok := got[f] == w || (f == "TotalFeePaid" && got[f] == full)
-		c.Check(ok, "G-fee", "Tx.feesPaid/"+f, fn.Pos(), f+" = "+w, fmt.Sprintf("feesPaid computes %s as %s; specified floor arithmetic is %s", f, got[f], w))
+		if !(got[f] == w || (f == "TotalFeePaid" && got[f] == full)) {
+			sem = feesPaidByValue(fn) // spelt differently (a helper, named locals): compared by value
+			break
+		}
+	}
+	for f, w := range want {
+		ok := got[f] == w || (f == "TotalFeePaid" && got[f] == full) || sem[f] == "ok"
+		detail := got[f]
+		if sem[f] != "" && sem[f] != "ok" {
+			detail += " [" + sem[f] + "]"
+		}
+		c.Check(ok, "G-fee", "Tx.feesPaid/"+f, fn.Pos(), f+" = "+w, fmt.Sprintf("feesPaid computes %s as %s; specified floor arithmetic is %s", f, detail, w))
 	}
 	for f := range got {
 		if _, ok := want[f]; !ok {
@@ -192,7 +205,10 @@ func ruleGFee(c *Ctx) {
 		shapes := map[string]bool{}
 		for _, d := range paths {
 			r := "other"
-			if d.Ret != nil && d.Ret.Results[0] == ssa.Value(al) {
+			if d.Ret == nil {
+				continue // a path that goes round a loop: its continuation is among the others
+			}
+			if d.Ret.Results[0] == ssa.Value(al) {
 				r = "fees"
 			} else if k, ok := d.Ret.Results[0].(*ssa.Const); ok && k.Value == nil {
 				r = "nil"
@@ -201,6 +217,125 @@ func ruleGFee(c *Ctx) {
 		}
 		c.Check(len(shapes) == 2 && shapes["fees, nil"] && shapes["nil, err"], "G-fee", "Tx.feesPaid/returns", fn.Pos(), "returns the computed fees with nil error, or nil with the quote's error", "feesPaid's return shapes changed: "+strings.Join(keysSorted(shapes), " | "))
 	}
+}
+
+var callSiteMark = regexp.MustCompile(`@\d+`)
+
+// feesPaidByValue: the three fields of the TxFees feesPaid returns, read on its success path with helpers
+// spliced in, evaluated on a grid of byte counts and rates that separates floor from ceiling and rounding,
+// each rate from the other and the two byte counts from each other; "ok" per field that equals
+// floor(bytes * satoshis / per-bytes) of its own fee type (the total: their sum) on every cell, otherwise
+// what was found.
+func feesPaidByValue(fn *ssa.Function) map[string]string {
+	out := map[string]string{}
+	paths, err := feasiblePaths(fn, 400)
+	if err != nil {
+		return out
+	}
+	std := `(*bt.FeeQuote).Fee(p2, "standard")#0.MiningFee`
+	data := `(*bt.FeeQuote).Fee(p2, "data")#0.MiningFee`
+	for _, d := range paths {
+		if d.EndKind != "return" || d.Ret == nil || len(d.Ret.Results) != 2 {
+			continue
+		}
+		if et := d.Env.Term(d.Ret.Results[1]); !(et.K == "const" && et.C == nil) {
+			continue
+		}
+		onPath := map[*ssa.BasicBlock]bool{}
+		for _, b := range d.allBlocks(0) {
+			onPath[b] = true
+		}
+		terms := map[string]*T{}
+		for b := range onPath {
+			for _, ins := range b.Instrs {
+				st, ok := ins.(*ssa.Store)
+				if !ok {
+					continue
+				}
+				fa, ok := st.Addr.(*ssa.FieldAddr)
+				if !ok {
+					continue
+				}
+				if al, ok := d.Env.Val(fa.X).(*ssa.Alloc); !ok || namedOf(al.Type()) != "TxFees" {
+					continue
+				}
+				f := fieldName(fa.X.Type(), fa.Field)
+				if terms[f] != nil {
+					out[f] = "stored more than once on the success path"
+					continue
+				}
+				terms[f] = d.Env.Term(st.Val)
+			}
+		}
+		grid := func(f func(S, D, ss, sb, ds, db int64)) {
+			for _, S := range []int64{0, 1, 999, 1000, 1001, 1<<20 + 7} {
+				for _, D := range []int64{0, 3, 1499, 1<<18 + 1} {
+					for _, ss := range []int64{0, 1, 50, 500} {
+						for _, sb := range []int64{1, 2, 1000} {
+							for _, ds := range []int64{0, 1, 25, 333} {
+								for _, db := range []int64{1, 3, 777} {
+									f(S, D, ss, sb, ds, db)
+								}
+							}
+						}
+					}
+				}
+			}
+		}
+		for _, f := range []string{"StdFeePaid", "DataFeePaid", "TotalFeePaid"} {
+			t := terms[f]
+			if t == nil || out[f] != "" {
+				if out[f] == "" {
+					out[f] = "not stored on the success path"
+				}
+				continue
+			}
+			verdict := "ok"
+			grid(func(S, D, ss, sb, ds, db int64) {
+				if verdict != "ok" {
+					return
+				}
+				stdPaid, dataPaid := S*ss/sb, D*ds/db
+				known := map[string]*big.Int{
+					"p1.TotalStdBytes": big.NewInt(S), "p1.TotalDataBytes": big.NewInt(D), "p1.TotalBytes": big.NewInt(S + D),
+					std + ".Satoshis": big.NewInt(ss), std + ".Bytes": big.NewInt(sb),
+					data + ".Satoshis": big.NewInt(ds), data + ".Bytes": big.NewInt(db),
+				}
+				asg := map[string]*big.Int{}
+				bt := map[string]*T{}
+				baseTerms(t, bt)
+				for k := range bt {
+					switch {
+					case known[callSiteMark.ReplaceAllString(k, "")] != nil:
+						asg[k] = known[callSiteMark.ReplaceAllString(k, "")]
+					case strings.HasSuffix(k, ".StdFeePaid"): // the total may read the two fields back
+						asg[k] = big.NewInt(stdPaid)
+					case strings.HasSuffix(k, ".DataFeePaid"):
+						asg[k] = big.NewInt(dataPaid)
+					}
+				}
+				v, ok := evalTerm(t, asg)
+				if !ok {
+					var unknown []string
+					for k := range bt {
+						if asg[k] == nil {
+							unknown = append(unknown, k)
+						}
+					}
+					sort.Strings(unknown)
+					verdict = "depends on " + strings.Join(unknown, ", ")
+					return
+				}
+				want := map[string]int64{"StdFeePaid": stdPaid, "DataFeePaid": dataPaid, "TotalFeePaid": stdPaid + dataPaid}[f]
+				if v.Cmp(big.NewInt(want)) != 0 {
+					verdict = fmt.Sprintf("with %d standard bytes at %d/%d and %d data bytes at %d/%d it is %s, the floor formula gives %d", S, ss, sb, D, ds, db, v, want)
+				}
+			})
+			out[f] = verdict
+		}
+		return out
+	}
+	return out
 }
 
 // ruleGQuote: the fee of a type is stored under and looked up by the caller's type key.
